@@ -57,6 +57,7 @@ func (w *Worker) fBin(op token.Token, a, b *Term, f32 bool) *Term {
 						panic(pathEnd{"zero divisor outside the finite-real model"})
 					}
 					w.stats.Stubs["R+ model: float division by zero yields an unconstrained value (decided by native replay)"]++
+					w.poisoned = true
 					return tt.Fresh("nonfinite", RealSort)
 				}
 			}
